@@ -55,6 +55,12 @@ fn panic_catcher_stop_catching() {
     });
 }
 
+/// Returns the current `catch_panic` nesting level of the calling thread.
+#[cfg(feature = "verif-hooks")]
+pub fn verif_panic_catcher_level() -> u64 {
+    PANIC_CATCHER_LEVEL.with(|b| b.get())
+}
+
 /// Retrieves the backtrace stored during the last panic
 /// for the current thread.
 pub fn panic_catcher_get_backtrace() -> Option<String> {
